@@ -43,6 +43,10 @@ func (d *Document) IntValueAsInt32(ref int) (out int32) {
 
 func (d *Document) IntValueValidInt32(ref int) bool {
 	in := d.Input.ByteSlice(d.IntValues[ref].Raw)
+	// Raw holds the digits without the sign: math.MinInt32 has a magnitude one above math.MaxInt32
+	if d.IntValues[ref].Negative && bytes.Equal(in, []byte("2147483648")) {
+		return true
+	}
 	return unsafebytes.BytesIsValidInt32(in)
 }
 
